@@ -380,7 +380,7 @@ func (E *Engine) mapDom(st *State, m *Term, mt *types.Map, env TEnv) *Term {
 	if m == E.null() {
 		return E.tb.ConstArray(ArraySort(k, SBool), E.tb.False())
 	}
-	if m.kind == kConst && len(m.atom) > 1 && m.atom[:1] == "&" {
+	if m.kind == kConst && isAddrConst(m.atom) {
 		return d // freshly allocated: never null
 	}
 	return E.tb.Ite(E.tb.Eq(m, E.null()), E.tb.ConstArray(ArraySort(k, SBool), E.tb.False()), d)
